@@ -31,8 +31,9 @@ What the two engines do BEFORE the first node, and the model repeats as outcomes
 * `CheckpointManager::new(config)?` — `create_dir_all(directory)`; when the path cannot be made a directory (it is a
   regular file, a parent is read-only, …) `run_collect` returns that `Err` although the plain engines would have
   returned the result (`Env.dirCreatable = false` ⇒ `.setupFailed .createDir`);
-* `find_latest_checkpoint(..)?` (only with `auto_recover`) — `read_dir(directory)` fails (e.g. mode 0300) ⇒ `Err`
-  (`Env.dirListable = false` ⇒ `.setupFailed .readDir`).
+* `find_latest_checkpoint(..)?` (only with `auto_recover`) — it returns `Ok(None)` when `!directory.exists()`
+  (`Env.dirExists = false` ⇒ recovery sees nothing) and only then calls `read_dir(directory)`, whose failure (e.g.
+  mode 0300) is an `Err` (`Env.dirListable = false` ⇒ `.setupFailed .readDir`).
 
 Both are exits that exist ONLY in the checkpointing engines: WITH AN UNUSABLE CHECKPOINT DIRECTORY THE CHECKPOINTING RUN
 RETURNS `Err` WHERE THE PLAIN RUN RETURNS `Ok`. They are OUTSIDE the transparency claim: transparency is a theorem
@@ -52,9 +53,22 @@ not a candidate of clear (it stays, also after a successful run); `File::create`
 and made `load_checkpoint` fail — `Checkpoint.Legacy.latestWithDirs`.) `cleanupD` / `clearD` / `saveD` / `readD` below are the store functions of `Model/Checkpoint.lean`
 with exactly this difference; with `isDir = fun _ => false` they are those functions (`Proofs/CheckpointRun.lean`).
 
-NOT modelled: I/O errors on single regular files (`File::create` / `write_all` / `sync_all` / `remove_file` failing
-for another reason than "is a directory"), a directory that changes while the run is in progress, `read_dir` entries
-that fail individually (`filter_map(Result::ok)`), non-UTF-8 names (skipped by `to_str()` in the code).
+A checkpoint directory that stops being usable WHILE the run is in progress (`Env.failFrom = some k`: it is renamed /
+removed / replaced while chain node `k` executes): every later `save_checkpoint` fails in `File::create` (its `Err` is
+logged), the final `clear_checkpoints` fails in `read_dir` (`.ok()`), what the directory held at that moment stays.
+Reproduced on the real code by the harness (jobs `sab=j`: a user closure renames the directory away).
+
+Leftover files too large to read (`Env.tooBig`): `load_checkpoint` reads the WHOLE file (`read_to_end`) before the decode
+limit applies; when that many bytes cannot be reserved the read returns `Err` and recovery logs it (observed under the
+child's address-space limit with a sparse 3 GiB file). NOT modelled: memory that can be reserved but not backed (OOM kill).
+
+The terminal downcast `downcast::<Vec<T>>()` and the partition count as the caller writes it (`partitions: None`) are a
+layer on top of the type-erased engines: `execSeqCkptT` / `execParCkptT` / `runCollectT` (end of this file).
+
+NOT modelled: I/O errors on single regular files (`write_all` / `sync_all` / `remove_file` failing; `File::create`
+failing for another reason than "is a directory" / "the directory is gone"), `read_dir` entries that fail individually
+(`filter_map(Result::ok)`), non-UTF-8 names (skipped by `to_str()` in the code), the `?` exits "unsupported source vec
+type" and the `Materialized` arm (unreachable through `run_collect` on builder-made pipelines).
 
 Engine conventions inherited from `Model/Engine.lean`: `Err.emptyBuf` stands for a panic of the engine
 (`buf.take().unwrap()` on `None`), `Err.nonTermination` for a fan-in loop that never ends; neither RETURNS, so
@@ -86,10 +100,26 @@ structure Env where
   progress : Nat → Nat → UInt8
   /-- does `create_dir_all(config.directory)` succeed (the path is, or can be made, a directory)? -/
   dirCreatable : Bool := true
+  /-- does `config.directory.exists()` hold after a successful `create_dir_all`? Always, except for a path that
+      `create_dir_all` accepts without creating anything: the EMPTY path (`create_dir_all("") = Ok(())`,
+      `Path::new("").exists() = false`, `read_dir("")` fails, but `Path::new("").join(name)` is a file in the current
+      directory, so `File::create` works). Since the fix "an empty checkpoint directory path is the current directory"
+      `CheckpointManager::new` never leaves the path empty; the test itself is still in `find_latest_checkpoint`. -/
+  dirExists : Bool := true
   /-- does `read_dir(config.directory)` succeed? -/
   dirListable : Bool := true
   /-- the names in the checkpoint directory that are sub-directories -/
   isDir : Name → Bool := fun _ => false
+  /-- regular files too large to be read into memory: `load_checkpoint` does `read_to_end` of the WHOLE file before the
+      decode limit applies; when the reservation of that many bytes fails, `File::read_to_end` returns `Err`
+      (`try_reserve`), which `load_checkpoint` passes on ("Failed to read checkpoint") and the recovery block logs.
+      (A reservation that succeeds but cannot be backed — an OOM kill by the kernel — is outside the model.) -/
+  tooBig : Name → Bool := fun _ => false
+  /-- `some k`: the checkpoint directory stops being usable WHILE chain node `k` executes (something outside the engine
+      — e.g. a user closure, another process — renames / removes / replaces it): from then on `File::create` and
+      `read_dir` on the configured path fail, so every later `save_checkpoint` and the final `clear_checkpoints`
+      return `Err` (logged / `.ok()`). The content the directory had at that moment is what stays. -/
+  failFrom : Option Nat := none
 
 /-- ASCII bytes of a literal -/
 def ascii (s : String) : Bytes := s.toList.map (fun c => UInt8.ofNat c.toNat)
@@ -153,9 +183,9 @@ def saveD (isDir : Name → Bool) (listable : Bool) (max : Option Nat) (fs : FS)
     let w := write fs (fileName s) (encode s)
     some (if listable then cleanupD isDir max s.pipelineId w else w)
 
-/-- `File::open` + `read_to_end`: fails on a sub-directory (EISDIR) -/
-def readD (isDir : Name → Bool) (fs : FS) (name : Name) : Option Bytes :=
-  if isDir name then none else read fs name
+/-- `File::open` + `read_to_end`: fails on a sub-directory (EISDIR) and on a file whose size cannot be reserved -/
+def readD (isDir tooBig : Name → Bool) (fs : FS) (name : Name) : Option Bytes :=
+  if isDir name || tooBig name then none else read fs name
 
 /-! ## recovery -/
 
@@ -183,14 +213,15 @@ inductive RecFail where
 deriving DecidableEq, Repr
 
 /-- the recovery block: `if auto_recover && let Some(path) = find_latest_checkpoint(pid)? { match load_checkpoint(path) … }`.
-    (`directory.exists()` holds here: `CheckpointManager::new` has just created it.) -/
+    `find_latest_checkpoint` returns `Ok(None)` when `!directory.exists()` BEFORE it calls `read_dir`. -/
 def recover (env : Env) (cfg : Config) (pid : Bytes) (fs : FS) : Except RecFail RecLog :=
   if !cfg.autoRecover then .ok .off
+  else if !env.dirExists then .ok .nothing
   else if !env.dirListable then .error .readDir
   else match latestD env.isDir pid fs with
     | none => .ok .nothing
     | some name =>
-      match readD env.isDir fs name with
+      match readD env.isDir env.tooBig fs name with
       | none => .ok .unreadable
       | some bytes =>
         match load env.H env.dec bytes with
@@ -234,10 +265,24 @@ def mkState (env : Env) (pid : Bytes) (idx ts pc : Nat) (mode : Bytes) (total : 
 def seqState (env : Env) (pid : Bytes) (idx total ts : Nat) (nt : Bytes) : State :=
   mkState env pid idx ts 1 (ascii "sequential") total nt (env.progress idx total)
 
+/-- has the directory stopped being usable by the time the block after node `idx` runs? -/
+def storeFails (env : Env) (idx : Nat) : Bool :=
+  match env.failFrom with
+  | some k => decide (k ≤ idx)
+  | none => false
+
+/-- … by the time a chain of `total` nodes has run to its end? -/
+def storeFailsAtEnd (env : Env) (total : Nat) : Bool :=
+  match env.failFrom with
+  | some k => decide (k < total)
+  | none => false
+
 /-- `manager.save_checkpoint(&state)` as the engines use it (result only logged): create + write, then
-    `last_checkpoint_time = Some(SystemTime::now())`, then retention. When `File::create` fails the function returns
-    before the clock is read. -/
-def doSave (env : Env) (cfg : Config) (st : St) (s : State) : St :=
+    `last_checkpoint_time = Some(SystemTime::now())`, then retention. When `File::create` fails (the name is a
+    sub-directory; the directory is gone: `fails`) the function returns before the clock is read. -/
+def doSave (env : Env) (cfg : Config) (fails : Bool) (st : St) (s : State) : St :=
+  if fails then st
+  else
   match saveD env.isDir env.dirListable cfg.max st.fs s with
   | none => st
   | some fs' => { fs := fs', last := some (env.clock st.tick), tick := st.tick + 1 }
@@ -248,7 +293,7 @@ def afterNode (env : Env) (cfg : Config) (pid : Bytes) (total idx : Nat) (node :
   if d.1 then
     let st1 := d.2
     let ts := stampOf (env.clock st1.tick)
-    doSave env cfg { st1 with tick := st1.tick + 1 } (seqState env pid idx total ts (nodeType node))
+    doSave env cfg (storeFails env idx) { st1 with tick := st1.tick + 1 } (seqState env pid idx total ts (nodeType node))
   else d.2
 
 /-! ## the sequential checkpointing engine -/
@@ -301,8 +346,10 @@ structure Run (ρ : Type) where
 
 def initSt (fs : FS) : St := { fs := fs, last := none, tick := 0 }
 
-/-- `manager.clear_checkpoints(&pipeline_id).ok()`: nothing happens when `read_dir` fails -/
-def clearRun (env : Env) (pid : Bytes) (fs : FS) : FS := if env.dirListable then clearD env.isDir pid fs else fs
+/-- `manager.clear_checkpoints(&pipeline_id).ok()` at the end of a chain of `total` nodes: nothing happens when
+    `read_dir` fails (directory not listable, or no longer there) -/
+def clearRun (env : Env) (total : Nat) (pid : Bytes) (fs : FS) : FS :=
+  if env.dirListable && !storeFailsAtEnd env total then clearD env.isDir pid fs else fs
 
 /-- `exec_seq_with_checkpointing(chain, config)` -/
 def execSeqCkpt (env : Env) (cfg : Config) (fs : FS) (chain : List (Node P)) : Run (M P) :=
@@ -318,7 +365,7 @@ def execSeqCkpt (env : Env) (cfg : Config) (fs : FS) (chain : List (Node P)) : R
     match r.1 with
     | .error e => { outcome := .finished (.error e), fs := r.2.fs, log := some lg }
     | .ok none => { outcome := .finished (.error .emptyBuf), fs := r.2.fs, log := some lg }   -- `buf.unwrap()` panics
-    | .ok (some b) => { outcome := .finished (.ok b), fs := clearRun env pid r.2.fs, log := some lg }
+    | .ok (some b) => { outcome := .finished (.ok b), fs := clearRun env total pid r.2.fs, log := some lg }
 
 /-- the directory a run leaves behind when it is KILLED right after the `k`-th node (and its save, if one was due):
     nothing is cleared. `k = 0`: killed before the first node. -/
@@ -350,9 +397,11 @@ def execParCkpt (concat : List P → P) (env : Env) (cfg : Config) (fs : FS) (ch
   | .ok lg =>
     let r := execPar concat chain n
     match r with
-    | .ok _ => { outcome := .finished r, fs := clearRun env pid fs, log := some lg }
+    | .ok _ => { outcome := .finished r, fs := clearRun env total pid fs, log := some lg }
     | .error e =>
-      if returnsErr e then
+      -- (`exec_par` on an EMPTY chain indexes `chain[0]`: a panic, not an `Err` — nothing is saved; `build_plan`
+      --  never produces one, the engine model's `.noSource` stands for both)
+      if returnsErr e && !chain.isEmpty && !storeFailsAtEnd env total then
         let ts := stampOf (env.clock 0)
         { outcome := .finished r,
           fs := (saveD env.isDir env.dirListable cfg.max fs (failedState env pid total n ts)).getD fs,   -- `.ok()`
@@ -386,6 +435,107 @@ def runCollect (concat : List P → P) (env : Env) (r : Runner) (fs : FS) (chain
     | .sequential => { outcome := .finished (execSeq chain), fs := fs, log := some .off }
     | .parallel n => { outcome := .finished (execPar concat chain n), fs := fs, log := some .off }
 
+/-! ## the terminal downcast (`run_collect::<T>`), and the partition count as the caller writes it
+
+The engine model is type-erased like the Rust engines (`P` = `Box<dyn Any>`); the only place where the requested
+element type `T` matters is the terminal downcast `out.downcast::<Vec<T>>().map_err(|_| anyhow!("terminal type
+mismatch"))?`. It is a parameter here: `cast : P → Option R` (`none` = the terminal partition is not a `Vec<T>`).
+
+* `exec_seq` / `exec_par`: the downcast is their last statement — `castRes`.
+* `exec_seq_with_checkpointing`: the downcast comes AFTER the node loop (all saves done) and BEFORE
+  `clear_checkpoints`: with a wrong `T` the run returns the same `Err` as the plain engine, and every checkpoint file
+  the loop saved stays — the directory is exactly what a run killed after its last node leaves
+  (`crashFs … chain.length`).
+* `exec_par_with_checkpointing`: the downcast is inside `exec_par`; its `Err` makes `result.is_ok()` false, so the
+  `"Failed"` marker is saved.
+
+The two other `?` exits inside the node match ("unsupported source vec type", the `Materialized` arm's downcast)
+cannot be reached through `Runner::run_collect` on a pipeline the builders made (a `Source` node always carries the
+`VecOps` of its own payload; `Node::Materialized` is never constructed by the crate) and have no model. -/
+
+/-- errors of the typed run -/
+inductive TErr where
+  | engine (e : Err)
+  /-- `anyhow!("terminal type mismatch")` -/
+  | typeMismatch
+deriving DecidableEq, Repr
+
+/-- the tail of `exec_seq::<T>` / `exec_par::<T>`: downcast of the terminal partition -/
+def castRes {R : Type} (cast : P → Option R) : M P → Except TErr R
+  | .error e => .error (.engine e)
+  | .ok b =>
+    match cast b with
+    | some v => .ok v
+    | none => .error .typeMismatch
+
+/-- `exec_seq_with_checkpointing::<T>` -/
+def execSeqCkptT {R : Type} (cast : P → Option R) (env : Env) (cfg : Config) (fs : FS) (chain : List (Node P)) :
+    Run (Except TErr R) :=
+  let r := execSeqCkpt env cfg fs chain
+  match r.outcome with
+  | .finished (.ok b) =>
+    match cast b with
+    | some v => { outcome := .finished (.ok v), fs := r.fs, log := r.log }
+    | none =>   -- `?` after the loop, before `clear_checkpoints`
+      { outcome := .finished (.error .typeMismatch), fs := crashFs env cfg fs chain chain.length, log := r.log }
+  | .finished (.error e) => { outcome := .finished (.error (.engine e)), fs := r.fs, log := r.log }
+  | .died e => { outcome := .died e, fs := r.fs, log := r.log }
+  | .setupFailed e => { outcome := .setupFailed e, fs := r.fs, log := r.log }
+
+/-- `exec_par_with_checkpointing::<T>` -/
+def execParCkptT {R : Type} (cast : P → Option R) (concat : List P → P) (env : Env) (cfg : Config) (fs : FS)
+    (chain : List (Node P)) (n : Nat) : Run (Except TErr R) :=
+  let r := execParCkpt concat env cfg fs chain n
+  match r.outcome with
+  | .finished (.ok b) =>
+    match cast b with
+    | some v => { outcome := .finished (.ok v), fs := r.fs, log := r.log }
+    | none =>   -- `exec_par` returned `Err`: the marker is saved (`.ok()`), nothing is cleared
+      let total := chain.length
+      let pid := parPid env total n
+      { outcome := .finished (.error .typeMismatch),
+        fs := if storeFailsAtEnd env total then fs
+              else (saveD env.isDir env.dirListable cfg.max fs (failedState env pid total n (stampOf (env.clock 0)))).getD fs,
+        log := r.log }
+  | .finished (.error e) => { outcome := .finished (.error (.engine e)), fs := r.fs, log := r.log }
+  | .died e => { outcome := .died e, fs := r.fs, log := r.log }
+  | .setupFailed e => { outcome := .setupFailed e, fs := r.fs, log := r.log }
+
+/-- `ExecMode` as the caller writes it -/
+inductive ModeSpec where
+  | sequential
+  | parallel (threads : Option Nat) (partitions : Option Nat)
+deriving DecidableEq, Repr
+
+/-- `Runner { mode, default_partitions, checkpoint_config }` -/
+structure RunnerSpec where
+  mode : ModeSpec
+  defaultPartitions : Nat
+  checkpoint : Option (Bool × Config)
+
+/-- `partitions.or(suggested_parts).unwrap_or(self.default_partitions)` — the copy in the CHECKPOINTING branch of
+    `run_collect` (runner.rs, `if checkpoint_enabled { … }`) -/
+def resolvePartsCk (partitions suggested : Option Nat) (dflt : Nat) : Nat := (partitions.or suggested).getD dflt
+
+/-- … and the copy in the plain branch -/
+def resolvePartsPlain (partitions suggested : Option Nat) (dflt : Nat) : Nat := (partitions.or suggested).getD dflt
+
+/-- `Runner::run_collect::<T>` on the planned chain, with the planner's partition suggestion; `threads` only
+    configures the global rayon pool (`build_global().ok()`), it does not enter the result -/
+def runCollectT {R : Type} (cast : P → Option R) (concat : List P → P) (env : Env) (r : RunnerSpec)
+    (suggested : Option Nat) (fs : FS) (chain : List (Node P)) : Run (Except TErr R) :=
+  match r.checkpoint with
+  | some (true, cfg) =>
+    match r.mode with
+    | .sequential => execSeqCkptT cast env cfg fs chain
+    | .parallel _ p => execParCkptT cast concat env cfg fs chain (resolvePartsCk p suggested r.defaultPartitions)
+  | _ =>
+    match r.mode with
+    | .sequential => { outcome := .finished (castRes cast (execSeq chain)), fs := fs, log := some .off }
+    | .parallel _ p =>
+      { outcome := .finished (castRes cast (execPar concat chain (resolvePartsPlain p suggested r.defaultPartitions))),
+        fs := fs, log := some .off }
+
 /-! ## the pinned commit: no `CoGroup` arm in the sequential checkpointing engine -/
 
 namespace Legacy
@@ -418,7 +568,7 @@ def execSeqCkpt (env : Env) (cfg : Config) (fs : FS) (chain : List (Node P)) : R
     match r.1 with
     | .error e => { outcome := .finished (.error e), fs := r.2.fs, log := some lg }
     | .ok none => { outcome := .finished (.error (.engine .emptyBuf)), fs := r.2.fs, log := some lg }
-    | .ok (some b) => { outcome := .finished (.ok b), fs := clearRun env pid r.2.fs, log := some lg }
+    | .ok (some b) => { outcome := .finished (.ok b), fs := clearRun env total pid r.2.fs, log := some lg }
 
 end Legacy
 
